@@ -34,4 +34,34 @@ theorem py_peer_orientation : Py.peer_orientation.ok = false ∨
     all_goals (try push_cast)
     all_goals (try ring_nf)
 
+/-! ## C07: `_arrange_traces` and `_check_npts` -/
+
+theorem py_endswith1 (s : String) (c : Char) : pyEndsWith1 s c = endsWithC s c := rfl
+
+/-- one pass of the loop of `_arrange_traces`, translated from the source: on every state of the three "found" flags and for every channel name it refuses
+exactly when the model's `arrangeStep` refuses, and otherwise sets the flag of the slot `arrangeStep` fills -/
+theorem py_arrange_step : Py.arrange_step.ok = false ∨
+    ∀ (τ : Type) (ch : String) (x : τ) (st : ArrSt τ),
+      Py.arrange_step (α := ℝ) ch st.ew.isSome st.ns.isSome st.vt.isSome =
+        (match arrangeStep st (ch, x) with
+         | Except.error _ => none
+         | Except.ok st' => some (st'.ew.isSome, st'.ns.isSome, st'.vt.isSome)) := by
+  bridge_cases
+    intro τ ch x st
+    rcases st with ⟨ns, ew, vt⟩
+    simp only [Py.arrange_step, py_endswith1, arrangeStep]
+    by_cases hE : endsWithC ch 'E' = true <;> by_cases hN : endsWithC ch 'N' = true <;> by_cases hZ : endsWithC ch 'Z' = true <;>
+      cases ns <;> cases ew <;> cases vt <;> simp [hE, hN, hZ]
+
+/-- `_check_npts` raises exactly when the two counts differ -/
+theorem py_check_npts : Py.check_npts.ok = false ∨
+    ∀ (hdr found : ℕ), (Py.check_npts (α := ℝ) (hdr : ℤ) (found : ℤ)).isSome = (match checkNpts hdr found with | Except.ok _ => true | Except.error _ => false) := by
+  bridge_cases
+    intro hdr found
+    simp only [Py.check_npts, checkNpts]
+    by_cases h : hdr = found
+    · subst h; simp
+    · have h' : ¬ ((hdr : ℤ) = (found : ℤ)) := by exact_mod_cast h
+      simp [h, h']
+
 end HV.Bridge
